@@ -19,6 +19,14 @@ def _k(e):
     return short(e, 600).replace(" ", "")
 
 
+def _parses(t):
+    try:
+        ast.parse(t, mode="eval")
+        return True
+    except SyntaxError:
+        return False
+
+
 # ---------------------------------------------------------------------------
 # R2 / R3
 # ---------------------------------------------------------------------------
@@ -804,26 +812,77 @@ def degree_roles(repo, rep):
     # _get_Nk_and_IC_as_arrays_: node counted in the class array of its own status and degree
     f = repo.f("_get_Nk_and_IC_as_arrays_")
     rep.analysed(f)
-    n = 0
-    for c in walk_function(f.node):
-        st = c.stmt
-        if isinstance(st, ast.AugAssign) and re.fullmatch(r"[SIR]k0\[\w+\]", _k(st.target)):
-            n += 1
-            letter = _k(st.target)[0]
-            kvar = _k(st.target.slice)
-            facts = {("%s" if pol else "not(%s)") % _k(fx) for fx, pol in c.facts}
-            node = None
+    env1 = {k: v[0] for k, v in _env_of(f).items() if len(v) == 1}
+    degdicts = {k for k, v in env1.items() if _k(v) == "dict(G.degree())"}
+    # dispatch tables {'S': Sk0, ...} (values: the class arrays, or fresh arrays later read back as Xk0 = T['X'])
+    tables = {}
+    for nm, v in env1.items():
+        if isinstance(v, ast.Dict) and v.keys and all(isinstance(k, ast.Constant) and isinstance(k.value, str) for k in v.keys):
+            ent = {}
+            for k, val in zip(v.keys, v.values):
+                if isinstance(val, ast.Name) and re.fullmatch(r"[SIR]k0", val.id):
+                    ent[k.value] = val.id[0]
+            for x in own_nodes(f.node):
+                if isinstance(x, ast.Assign) and isinstance(x.targets[0], ast.Name) and re.fullmatch(r"[SIR]k0", x.targets[0].id) \
+                        and isinstance(x.value, ast.Subscript) and _k(x.value.value) == nm and isinstance(x.value.slice, ast.Constant):
+                    ent.setdefault(x.value.slice.value, x.targets[0].id[0])
+            if len(ent) == len(v.keys):
+                tables[nm] = ent
+
+    def degree_of(kexpr, c):
+        """the node whose degree `kexpr` is, at statement context c (None when it is not recognisably a degree of a loop node)"""
+        def direct(e):
+            if isinstance(e, ast.Call) and _k(e.func) == "G.degree" and len(e.args) == 1:
+                return _k(e.args[0])
+            if isinstance(e, ast.Subscript) and _k(e.value) in degdicts:
+                return _k(e.slice)
+            return None
+        d = direct(kexpr)
+        if d:
+            return d
+        if isinstance(kexpr, ast.Name):
             for lp in c.loops:
                 for b in lp.body:
-                    if isinstance(b, ast.Assign) and _k(b.targets[0]) == kvar and isinstance(b.value, ast.Call) and _k(b.value.func) == "G.degree":
-                        node = _k(b.value.args[0])
+                    if isinstance(b, ast.Assign) and _k(b.targets[0]) == kexpr.id:
+                        d = direct(b.value)
+                        if d:
+                            return d
+                if isinstance(lp, ast.For) and isinstance(lp.target, ast.Tuple) and len(lp.target.elts) == 2 and _k(lp.target.elts[1]) == kexpr.id:
+                    it = _k(lp.iter)
+                    if it == "G.degree()" or any(it == "%s.items()" % dd for dd in degdicts):
+                        return _k(lp.target.elts[0])
+        return None
+    covered = {}
+    for c in walk_function(f.node):
+        st = c.stmt
+        if not (isinstance(st, ast.AugAssign) and isinstance(st.op, ast.Add) and isinstance(st.target, ast.Subscript)):
+            continue
+        tgt = st.target
+        facts = {("%s" if pol else "not(%s)") % _k(fx) for fx, pol in c.facts}
+        if isinstance(tgt.value, ast.Name) and re.fullmatch(r"[SIR]k0", tgt.value.id):
+            letter = tgt.value.id[0]
+            node = degree_of(tgt.slice, c)
             if letter in ("S", "I"):
                 ok = node is not None and "status[%s]=='%s'" % (node, letter) in facts
             else:
-                ok = node is not None and "not(status[%s]=='S')" % node in facts and "not(status[%s]=='I')" % node in facts
+                ok = node is not None and (("not(status[%s]=='S')" % node in facts and "not(status[%s]=='I')" % node in facts)
+                                           or "status[%s]=='R'" % node in facts)
             ok = ok and _k(st.value) == "1"
+            covered.setdefault(letter, []).append((ok, st, node))
+        elif isinstance(tgt.value, ast.Subscript) and isinstance(tgt.value.value, ast.Name) and tgt.value.value.id in tables:
+            ent = tables[tgt.value.value.id]
+            node = degree_of(tgt.slice, c)
+            sel = _k(tgt.value.slice)
+            for key, letter in ent.items():
+                ok = node is not None and sel == "status[%s]" % node and key == letter and _k(st.value) == "1"
+                covered.setdefault(letter, []).append((ok, st, node))
+    n = 0
+    for letter in "SIR":
+        for ok, st, node in covered.get(letter, []):
+            n += 1
             rep.ob("ROLE", ok, "_get_Nk_and_IC_as_arrays_: a node of status %s and degree k adds 1 to %sk0[k]" % (letter, letter), func=f, node=st,
-                   construct="%s += %s for node %s" % (_k(st.target), _k(st.value), node), detail="" if ok else "class counter does not follow the node's own status/degree")
+                   construct="%s += %s for node %s (class %s)" % (_k(st.target), _k(st.value), node, letter),
+                   detail="" if ok else "class counter does not follow the node's own status/degree")
     if n < 3:
         rep.ob("ROLE", False, "_get_Nk_and_IC_as_arrays_: every node of G is counted in the class array of its own status", func=f, node=f.node,
                construct="node counters %d" % n,
@@ -837,7 +896,16 @@ def degree_roles(repo, rep):
                 v = x.value
                 filt = [m for m in ast.walk(v) if isinstance(m, ast.comprehension) and m.ifs] or \
                     [m for m in ast.walk(v) if isinstance(m, ast.Call) and _k(m.func) == "filter"]
-                alldeg = "dict(G.degree()).values()" in _k(v) or "Nk.keys()" in _k(v)
+                def expanded(e, depth=0):
+                    t = _k(e)
+                    if depth > 4:
+                        return t
+                    for nm2, vals in _env_of(g).items():
+                        if len(vals) >= 1 and re.search(r"\b%s\b" % re.escape(nm2), t) and nm2 != _k(x.targets[0]):
+                            t = re.sub(r"\b%s\b" % re.escape(nm2), "(" + _k(vals[0]) + ")", t)
+                    return t if t == _k(e) else expanded(ast.parse(t, mode="eval").body, depth + 1) if _parses(t) else t
+                ex = expanded(v)
+                alldeg = "dict(G.degree())" in ex and ".values()" in ex or "Nk.keys()" in _k(v)
                 ok = alldeg and not filt
                 rep.ob("ROLE", ok, "%s: degree classes `%s` range over every degree present in G" % (g.name, _k(x.targets[0])), func=g, node=x,
                        construct="%s = %s" % (_k(x.targets[0]), _k(v)),
@@ -856,7 +924,9 @@ def degree_roles(repo, rep):
         for lp in [x for x in ast.walk(g.node) if isinstance(x, ast.For)]:
             if any(isinstance(y, ast.AugAssign) and re.match(r"[SIR]k", _k(y.target)) for y in ast.walk(lp)):
                 it = _k(lp.iter)
-                ok = it in ("G.nodes()", "G", "G.edges()", "G.edges")
+                ok = it in ("G.nodes()", "G", "G.edges()", "G.edges", "G.degree()") or \
+                    any(_k(vv) == "dict(G.degree())" and it in (nm3, nm3 + ".items()", nm3 + ".keys()")
+                        for nm3, vs in _env_of(g).items() for vv in vs)
                 rep.ob("ROLE", ok, "%s: class counts are taken over the graph (%s)" % (g.name, it), func=g, node=lp,
                        construct="counting loop over %s" % it, detail="" if ok else "counts are accumulated over %s: a node listed twice is counted twice" % it)
 
